@@ -164,7 +164,7 @@ fn c03_update_pin_info(kc: usize, ksq: u8) {
     kani::cover!(ch != 0 && pin != 0);
 }
 
-// @ob id=S1.4 props=C03,C18,C04 tier=quick kind=lemma fn="spec: s_check_pin,s_attacked" desc="code-independent, kings not adjacent: the checkers set of s_check_pin is non-empty exactly when the king of the side to move is attacked (flood-fill definition), and it equals the set of attackers seen from the king"
+// @ob id=S1.4 props=C03,C18,C04 tier=quick kind=lemma cache=yes fn="spec: s_check_pin,s_attacked" desc="code-independent, kings not adjacent: the checkers set of s_check_pin is non-empty exactly when the king of the side to move is attacked (flood-fill definition), and it equals the set of attackers seen from the king"
 #[kani::proof]
 #[kani::unwind(9)]
 fn spec_checkers_iff_in_check() {
@@ -642,7 +642,7 @@ fn c07_movelist_room() {
     }
 }
 
-// @ob id=S1.5 props=C07,C05 tier=quick kind=lemma fn="spec: s_valid,s_sane" desc="code-independent: every valid chess position (the quantifier of C01/C05: one king each, <=16 men, <=8 pawns, no pawn on rank 1/8, side not to move not in check, rights backed, en-passant state consistent) satisfies the gatekeeper specification s_sane — so validation succeeds for every valid position once is_sane == s_sane (O5.1)"
+// @ob id=S1.5 props=C07,C05 tier=quick kind=lemma cache=yes fn="spec: s_valid,s_sane" desc="code-independent: every valid chess position (the quantifier of C01/C05: one king each, <=16 men, <=8 pawns, no pawn on rank 1/8, side not to move not in check, rights backed, en-passant state consistent) satisfies the gatekeeper specification s_sane — so validation succeeds for every valid position once is_sane == s_sane (O5.1)"
 #[kani::proof]
 #[kani::unwind(9)]
 fn spec_valid_implies_sane() {
@@ -652,7 +652,7 @@ fn spec_valid_implies_sane() {
     assert!(sp::s_sane(&pos, pos.occ()));
 }
 
-// @ob id=S5.1 props=C05,C01 tier=quick kind=lemma weight=light fn="spec: s_valid_core,s_legal,s_apply" desc="code-independent step lemma behind 'legal play stays within valid positions': for every valid position (cardinality clauses aside) and every legal move, the rule-prescribed successor is again valid — one king per side, no pawn on the first or last rank, castle rights still backed, en-passant state consistent, and the side that just moved is not in check. With O2.1a/O2.2a (code result == successor), O5.1 and S1.5 the library's own sanity check accepts every reachable position; the cardinality clauses follow from the structural monotonicity clauses of O2.1a"
+// @ob id=S5.1 props=C05,C01 tier=quick kind=lemma cache=yes weight=light fn="spec: s_valid_core,s_legal,s_apply" desc="code-independent step lemma behind 'legal play stays within valid positions': for every valid position (cardinality clauses aside) and every legal move, the rule-prescribed successor is again valid — one king per side, no pawn on the first or last rank, castle rights still backed, en-passant state consistent, and the side that just moved is not in check. With O2.1a/O2.2a (code result == successor), O5.1 and S1.5 the library's own sanity check accepts every reachable position; the cardinality clauses follow from the structural monotonicity clauses of O2.1a"
 #[kani::proof]
 #[kani::unwind(9)]
 fn spec_legal_step_keeps_valid() {
@@ -752,4 +752,91 @@ fn c07_try_from_builder() {
 fn c07_canary() {
     let b = any_board();
     assert!(b.is_sane());
+}
+
+// ------------------------------------------------------------------------------------------ consumers of the generator (C01, C04)
+
+/// contract of MoveGen::new_legal used by its consumers: SOME freshly started generator (index 0, no promotion in
+/// progress, mask = all squares, iterator invariant) — its move set stands for the legal moves (C01 producers)
+pub(crate) fn any_fresh_gen(_b: &Board) -> MoveGen {
+    let g = crate::movegen::k_movegen::any_gen_raw();
+    kani::assume(crate::movegen::k_movegen::fresh(&g));
+    g
+}
+
+pub(crate) fn any_small_fresh_gen(b: &Board) -> MoveGen {
+    let g = any_fresh_gen(b);
+    let s = crate::movegen::k_movegen::last_gen_snapshot();
+    kani::assume(s.0[0].1.count_ones() <= 2 && s.0[1].1.count_ones() <= 2 && s.0[2].1.count_ones() <= 1);
+    g
+}
+
+// @ob id=O1.9 props=C01 tier=quick kind=bounded weight=light bound="generator with at most 3 slots of at most 2,2,1 destinations standing for the legal-move list" fn="Board::legal" desc="the single-move legality query answers true exactly for the (source, destination, promotion) triples the generator would yield — promotion slots yield exactly the four promotion pieces, other slots exactly promotion None — and false for every other of the 64x64x7 move values; new_legal used through its contract"
+#[kani::proof]
+#[kani::unwind(24)]
+#[kani::stub(crate::movegen::MoveGen::new_legal, any_small_fresh_gen)]
+fn c01_board_legal_is_membership() {
+    let b = any_raw_board();
+    let m = any_move();
+    // the stand-in generator is re-created inside legal(); fix its content through a shared snapshot
+    let r = b.legal(m);
+    let snap = crate::movegen::k_movegen::last_gen_snapshot();
+    let (s, d) = (m.get_source().to_int(), m.get_dest().to_int());
+    let mut want = false;
+    let mut i = 0;
+    while i < 3 {
+        if i < snap.1 {
+            let (sq, bb, promo) = snap.0[i];
+            if sq == s && bb & (1u64 << d) != 0 {
+                let pm = m.get_promotion();
+                if promo {
+                    if pm == Some(Piece::Queen) || pm == Some(Piece::Knight) || pm == Some(Piece::Rook) || pm == Some(Piece::Bishop) {
+                        want = true;
+                    }
+                } else if pm.is_none() {
+                    want = true;
+                }
+            }
+        }
+        i += 1;
+    }
+    assert!(r == want);
+    kani::cover!(r);
+}
+
+// @ob id=O4.1k props=C04 tier=quick kind=bounded weight=light bound="generator with at most 3 slots standing for the legal-move list" fn="Board::status" desc="status is Checkmate exactly when the generator has nothing to yield and the checkers set is non-empty, Stalemate exactly when it has nothing to yield and the checkers set is empty, Ongoing otherwise; new_legal used through its contract, len() through O14.2"
+#[kani::proof]
+#[kani::unwind(20)]
+#[kani::stub(crate::movegen::MoveGen::new_legal, any_fresh_gen)]
+fn c04_status() {
+    let b = any_raw_board();
+    let st = b.status();
+    let snap = crate::movegen::k_movegen::last_gen_snapshot();
+    let mut any_move_left = false;
+    let mut i = 0;
+    while i < 3 {
+        if i < snap.1 && snap.0[i].1 != 0 {
+            any_move_left = true;
+        }
+        i += 1;
+    }
+    let want = if any_move_left {
+        BoardStatus::Ongoing
+    } else if b.checkers.0 == 0 {
+        BoardStatus::Stalemate
+    } else {
+        BoardStatus::Checkmate
+    };
+    assert!(st == want);
+    kani::cover!(st == BoardStatus::Checkmate);
+    kani::cover!(st == BoardStatus::Stalemate);
+}
+
+// @ob id=O4.canary props=C04 tier=quick kind=canary fn="Board::status" desc="deliberately false: status is never Stalemate — must FAIL"
+#[kani::proof]
+#[kani::unwind(20)]
+#[kani::stub(crate::movegen::MoveGen::new_legal, any_fresh_gen)]
+fn c04_canary() {
+    let b = any_raw_board();
+    assert!(b.status() != BoardStatus::Stalemate);
 }
